@@ -26,11 +26,13 @@ def image(state: StateInline, silent: bool) -> bool:
         return False
 
     pos = labelEnd + 1
+    parseReference = True
 
     if pos < max and state.src[pos] == "(":
         #
         # Inline link
         #
+        parseReference = False
 
         # [link](  <href>  "title"  )
         #        ^^ skipping these spaces
@@ -82,12 +84,14 @@ def image(state: StateInline, silent: bool) -> bool:
             title = ""
 
         if pos >= max or state.src[pos] != ")":
-            state.pos = oldPos
-            return False
+            # not an inline image after all: fall back to a reference
+            # (shortcut form), as the link rule does
+            parseReference = True
+            pos = labelEnd + 1
+        else:
+            pos += 1
 
-        pos += 1
-
-    else:
+    if parseReference:
         #
         # Link reference
         #
